@@ -952,6 +952,14 @@ func fieldOfStructValue(sv ssa.Value, field int, depth int) (ssa.Value, bool) {
 			out = fv
 		})
 		if ok && out != nil {
+			// a field the constructor fills with one of its parameters: the caller's argument
+			if p, isParam := unspill(out).(*ssa.Parameter); isParam && p.Parent() == g {
+				for i, gp := range g.Params {
+					if gp == p && i < len(x.Call.Args) {
+						return x.Call.Args[i], true
+					}
+				}
+			}
 			return out, true
 		}
 	case *ssa.Parameter:
